@@ -119,7 +119,7 @@ def run(eng, tier):
         ('ask-pending', 'L', lambda e: isf(e, ('is', STATUS, 'PendingIssuerApproval'))),
         ('id-not-canonical', 'L', lambda e: or_id(e, 'ask_id') or or_id(e, 'bid_id')),
         ('price-empty', 'L', lambda e: isf(e, ('val', ISEMPTY(PRICE), True))),
-        ('size-below-1', 'L', lambda e: isf(e, ('val', LT(SIZE, I(1)), True))),
+        ('size-below-1', 'L', lambda e: is_sign(e['fact'], SIZE, 'zero')),
         ('bid-fee-account-missing', 'L(fees payable)', lambda e: isf(e, ('is', F(CFG, 'bid_fee_info'), 'None'))),
         ('ask-fee-exceeds-gross', 'L(fees payable)', lambda e: isf(e, ('is', ('rcall', 'checked_sub', (GROSS, ASKFEE)), 'Err'))),
         ('config-load', 'I', lambda e: is_storage_load_err(e['fact'], 'contract_info')),
